@@ -6,10 +6,12 @@ package main
 
 import (
 	"bytes"
+	"crypto/tls"
 	"encoding/base64"
 	"encoding/binary"
 	"encoding/hex"
 	"fmt"
+	"net"
 	"net/http"
 	"strings"
 	"sync"
@@ -25,7 +27,7 @@ import (
 
 func init() {
 	register(&Check{ID: "C01", Level: "exploration",
-		Rule: "(a) mutated / truncated / random byte strings through the decoder, re-encoder, name scanner and TCP frame reader in child processes under the race detector and pool sanitizer; (b) hostile datagrams, lying TCP/DoT/DoQ frames in random segments and hostile DoH requests on all 8 listeners of the real binary, each followed by a valid probe, and the same against a proxy whose client limiter has refused the sender (must survive and serve other subnets), decodable queries whose OPT record carries option TLVs with lying / cut / nonsensical inner lengths against a proxy with client subnet and cache on; (c) hostile upstream replies (mutated, truncated, length-lying, HTTP-level, DoH bodies streamed without Content-Length) on 8 upstream transports followed by valid queries; " +
+		Rule: "(a) mutated / truncated / random byte strings through the decoder, re-encoder, name scanner and TCP frame reader in child processes under the race detector and pool sanitizer; (b) hostile datagrams, lying TCP/DoT/DoQ frames in random segments and hostile DoH requests on all 8 listeners of the real binary, each followed by a valid probe, and the same against a proxy whose client limiter has refused the sender (must survive and serve other subnets), decodable queries whose OPT record carries option TLVs with lying / cut / nonsensical inner lengths against a proxy with client subnet and cache on, 27 kinds of hand-written HTTP/1.x requests (no / wrong / double Content-Length, empty and malformed chunked bodies, Expect, odd methods, HTTP/1.0, 64 kB header) on the three HTTP listeners; (c) hostile upstream replies (mutated, truncated, length-lying, HTTP-level, DoH bodies streamed without Content-Length) on 8 upstream transports followed by valid queries; " +
 			"one evaluation = one hostile input; distinct non-trivial = distinct inputs by content hash (decoder) and distinct (listener or upstream, mutation kind) cells whose follow-up probe was answered",
 		Run: func(c *Ctx) {
 			c01Decoder(c)
@@ -39,7 +41,7 @@ func init() {
 			wg.Add(5)
 			go func() { defer wg.Done(); c01Sizes(c) }()
 			go func() { defer wg.Done(); c01ListenersLogged(c) }()
-			go func() { defer wg.Done(); c01ListenersLimited(c); c01ListenersOptions(c) }()
+			go func() { defer wg.Done(); c01ListenersLimited(c); c01ListenersOptions(c); c01RawHTTP(c) }()
 			go func() { defer wg.Done(); c01Listeners(c) }()
 			go func() { defer wg.Done(); c01UpstreamReplies(c) }()
 			wg.Wait()
@@ -412,6 +414,111 @@ func c01ListenersOptions(c *Ctx) {
 		c.Violation("listener:proxy-crash:opt-options", "the proxy (client subnet on, cache on) crashed on decodable queries whose OPT record carries hostile option TLVs: "+res.Panic, map[string]any{"panic": res.Panic})
 	}
 	c.Ev.Sample(map[string]any{"part": "opt-options", "inputs_per_listener": n, "kinds": "option-length-beyond-rdata, option-length-65535, option-header-cut, ecs-shorter-than-declared, ecs-below-fixed-part, ecs-prefix-and-family-nonsense, ecs-prefix-zero, many-empty-options, random-rdata"})
+}
+
+// c01RawHTTP: HTTP/1.x requests written octet by octet the way no well-behaved client library
+// writes them: POST without Content-Length and without Transfer-Encoding (no body at all), with
+// Content-Length 0, with a body shorter than announced, chunked bodies that are empty / malformed /
+// announced twice, Expect: 100-continue, unknown methods, HTTP/1.0, absurd header sizes. On the two
+// plain HTTP listeners and, with ALPN http/1.1, on the HTTPS one. Judged: the proxy survives and
+// the listener answers a valid query afterwards.
+func c01RawHTTP(c *Ctx) {
+	b, err := NewBed(c, "rawhttp", BedOpts{Upstreams: []string{"pipe"}, Listeners: []string{"http", "fasthttp", "https", "tcp"}})
+	if err != nil {
+		c.startFailure(err, "c01-rawhttp")
+		return
+	}
+	q := mkQuery(77, "ok-raw.pipe.test.", dns.TypeA, dns.ClassINET, false)
+	b64 := base64.RawURLEncoding.EncodeToString(q)
+	ct := "Content-Type: application/dns-message\r\n"
+	type rq struct{ kind, text string }
+	reqs := []rq{
+		{"post-no-length-no-body", "POST /dns-query HTTP/1.1\r\nHost: x\r\n" + ct + "\r\n"},
+		{"post-length-0", "POST /dns-query HTTP/1.1\r\nHost: x\r\n" + ct + "Content-Length: 0\r\n\r\n"},
+		{"post-no-length-close", "POST /dns-query HTTP/1.1\r\nHost: x\r\nConnection: close\r\n" + ct + "\r\n" + string(q)},
+		{"post-length-longer-than-body", "POST /dns-query HTTP/1.1\r\nHost: x\r\n" + ct + "Content-Length: 500\r\n\r\n" + string(q)},
+		{"post-length-shorter-than-body", "POST /dns-query HTTP/1.1\r\nHost: x\r\n" + ct + "Content-Length: 5\r\n\r\n" + string(q)},
+		{"post-chunked-empty", "POST /dns-query HTTP/1.1\r\nHost: x\r\n" + ct + "Transfer-Encoding: chunked\r\n\r\n0\r\n\r\n"},
+		{"post-chunked-bad-size", "POST /dns-query HTTP/1.1\r\nHost: x\r\n" + ct + "Transfer-Encoding: chunked\r\n\r\nzz\r\nabc\r\n0\r\n\r\n"},
+		{"post-chunked-huge-size", "POST /dns-query HTTP/1.1\r\nHost: x\r\n" + ct + "Transfer-Encoding: chunked\r\n\r\nffffffffffffffff\r\nabc"},
+		{"post-chunked-and-length", "POST /dns-query HTTP/1.1\r\nHost: x\r\n" + ct + "Transfer-Encoding: chunked\r\nContent-Length: 3\r\n\r\n3\r\nabc\r\n0\r\n\r\n"},
+		{"post-chunked-valid-query", fmt.Sprintf("POST /dns-query HTTP/1.1\r\nHost: x\r\n"+ct+"Transfer-Encoding: chunked\r\n\r\n%x\r\n%s\r\n0\r\n\r\n", len(q), q)},
+		{"post-expect-continue-no-body", "POST /dns-query HTTP/1.1\r\nHost: x\r\n" + ct + "Expect: 100-continue\r\nContent-Length: 40\r\n\r\n"},
+		{"post-negative-length", "POST /dns-query HTTP/1.1\r\nHost: x\r\n" + ct + "Content-Length: -1\r\n\r\n"},
+		{"post-two-lengths", "POST /dns-query HTTP/1.1\r\nHost: x\r\n" + ct + "Content-Length: 3\r\nContent-Length: 7\r\n\r\nabcdefg"},
+		{"get-no-accept", "GET /dns-query?dns=" + b64 + " HTTP/1.1\r\nHost: x\r\n\r\n"},
+		{"get-empty-dns", "GET /dns-query?dns= HTTP/1.1\r\nHost: x\r\nAccept: application/dns-message\r\n\r\n"},
+		{"get-no-query", "GET /dns-query HTTP/1.1\r\nHost: x\r\nAccept: application/dns-message\r\n\r\n"},
+		{"get-with-body", "GET /dns-query?dns=" + b64 + " HTTP/1.1\r\nHost: x\r\nAccept: application/dns-message\r\nContent-Length: 4\r\n\r\nabcd"},
+		{"get-http10-no-host", "GET /dns-query?dns=" + b64 + " HTTP/1.0\r\nAccept: application/dns-message\r\n\r\n"},
+		{"head", "HEAD /dns-query?dns=" + b64 + " HTTP/1.1\r\nHost: x\r\nAccept: application/dns-message\r\n\r\n"},
+		{"put-no-body", "PUT /dns-query HTTP/1.1\r\nHost: x\r\n" + ct + "\r\n"},
+		{"options-star", "OPTIONS * HTTP/1.1\r\nHost: x\r\n\r\n"},
+		{"unknown-method", "BREW /dns-query HTTP/1.1\r\nHost: x\r\n" + ct + "Content-Length: 0\r\n\r\n"},
+		{"connect", "CONNECT x:53 HTTP/1.1\r\nHost: x\r\n\r\n"},
+		{"header-64k", "POST /dns-query HTTP/1.1\r\nHost: x\r\nX-Pad: " + strings.Repeat("p", 70000) + "\r\n" + ct + "Content-Length: 0\r\n\r\n"},
+		{"request-line-only", "POST /dns-query HTTP/1.1\r\n"},
+		{"two-pipelined-posts-no-length", "POST /dns-query HTTP/1.1\r\nHost: x\r\n" + ct + "\r\nPOST /dns-query HTTP/1.1\r\nHost: x\r\n" + ct + "\r\n"},
+		{"h2-preface-on-h1", "PRI * HTTP/2.0\r\n\r\nSM\r\n\r\n"},
+	}
+	for rep := 0; rep < c.N(1, 4); rep++ {
+		for _, listener := range []string{"fasthttp", "http", "https"} {
+			for i, r := range reqs {
+				if !b.Proxy.Alive() {
+					break
+				}
+				func() {
+					raw, err := net.DialTimeout("tcp", b.L[listener], 3*time.Second)
+					if err != nil {
+						return
+					}
+					defer raw.Close()
+					var conn net.Conn = raw
+					if listener == "https" {
+						cfg := b.ProxyTLS.Clone()
+						cfg.NextProtos = []string{"http/1.1"}
+						tc := tls.Client(raw, cfg)
+						raw.SetDeadline(time.Now().Add(3 * time.Second))
+						if tc.Handshake() != nil {
+							return
+						}
+						conn = tc
+					}
+					raw.SetDeadline(time.Now().Add(1500 * time.Millisecond))
+					conn.Write([]byte(r.text))
+					buf := make([]byte, 512)
+					n, _ := conn.Read(buf) // a status line, or nothing
+					c.Ev.Eval(1)
+					st := "no-reply"
+					if n >= 12 && string(buf[:5]) == "HTTP/" {
+						st = string(buf[9:12])
+					}
+					c.Ev.Count("raw_http_"+listener+"_status_"+st, 1)
+					c.Ev.Distinct("raw-http", listener, r.kind, st)
+				}()
+				if i%4 == 3 || !b.Proxy.Alive() {
+					if err := c01Probe(b, listener, fmt.Sprintf("ok-rawprobe%dr%d.pipe.test.", i, rep)); err != nil {
+						fails := 0
+						for k := 0; k < 3; k++ {
+							if c01Probe(b, listener, fmt.Sprintf("ok-rawprobe%dr%dk%d.pipe.test.", i, rep, k)) != nil {
+								fails++
+							}
+						}
+						if fails == 3 {
+							c.Violation("raw-http:"+listener+":wedged", fmt.Sprintf("%s listener stopped answering valid queries after the raw request %q: %v", listener, r.kind, err), map[string]any{"listener": listener, "request": r.kind, "request_text": r.text[:min(len(r.text), 300)]})
+							break
+						}
+					}
+				}
+			}
+		}
+	}
+	alive := b.Proxy.Alive()
+	res := b.Stop()
+	if !alive || res.Panic != "" && res.DiedBeforeStop {
+		c.Violation("listener:proxy-crash:raw-http", "the proxy crashed on a raw HTTP/1.x request: "+res.Panic, map[string]any{"panic": res.Panic})
+	}
+	c.Ev.Sample(map[string]any{"part": "raw-http", "requests": len(reqs), "listeners": []string{"fasthttp", "http", "https (ALPN http/1.1)"}})
 }
 
 // c01ListenersLogged: valid queries whose names are almost entirely non-printable octets (four
